@@ -562,3 +562,25 @@ Proof.
 Qed.
 
 End Meta.
+
+(* ------------------------------------------------------------------ summaries used in Properties/C02.v *)
+Theorem layout_summary pl data : 0 < pl ->
+  let ps := pieces pl data in
+  concat ps = data
+  /\ Forall (fun p => p <> [] /\ lenN p <= pl) ps
+  /\ (forall i, (S i < length ps)%nat -> lenN (nth i ps []) = pl)
+  /\ (data = [] -> ps = [])
+  /\ lenN ps = (lenN data + pl - 1) / pl.
+Proof.
+  intros Hpl ps. pose proof (pieces_layout pl data Hpl) as HL. fold ps in HL.
+  split; [now apply (layout_concat pl)|]. split; [now apply (layout_bounds pl data)|].
+  split; [now apply (layout_full pl data)|]. split; [intros ->; reflexivity|].
+  now apply layout_num_pieces.
+Qed.
+
+Theorem layout_summary_unique pl data ps : 0 < pl ->
+  concat ps = data ->
+  Forall (fun p => p <> [] /\ lenN p <= pl) ps ->
+  (forall i, (S i < length ps)%nat -> lenN (nth i ps []) = pl) ->
+  ps = pieces pl data.
+Proof. intros Hpl Hc Hb Hf. apply layout_unique; [assumption|]. now apply layout_intro. Qed.
